@@ -150,7 +150,7 @@ func verifWalkNode(n Node, out *[]string) {
 }
 
 // VerifSexp is the canonical S-expression of an expression node. Strings are hex encoded; the pairs
-// of a hash literal are sorted (the parser keeps them in a Go map).
+// of a hash literal are in source order.
 func VerifSexp(n Node) string {
 	if n == nil {
 		return "(nil)"
@@ -199,11 +199,18 @@ func VerifSexp(n Node) string {
 	case *ArrayNode:
 		return "(arr" + list(x.items) + ")"
 	case *HashNode:
+		// pairs in source order (HashNode.order, kept by the parser); sorted when that record is incomplete
 		pairs := make([]string, 0, len(x.items))
-		for k, v := range x.items {
-			pairs = append(pairs, "("+VerifSexp(k)+" "+VerifSexp(v)+")")
+		if len(x.order) == len(x.items) {
+			for _, k := range x.order {
+				pairs = append(pairs, "("+VerifSexp(k)+" "+VerifSexp(x.items[k])+")")
+			}
+		} else {
+			for k, v := range x.items {
+				pairs = append(pairs, "("+VerifSexp(k)+" "+VerifSexp(v)+")")
+			}
+			sort.Strings(pairs)
 		}
-		sort.Strings(pairs)
 		if len(pairs) == 0 {
 			return "(hash)"
 		}
